@@ -101,47 +101,8 @@ Definition OCtab (c : ocid) : ochecker :=
   end.
 Definition OC_ALWAYS : ocid := 2%N.
 
-(* ---- histories ---- *)
-Inductive sop := SRequire (t : task) | SBottomUp (changed : list res).
-Inductive step :=
-| HEdit (r : res) (v : content)          (* external change of a resource *)
-| HEnv (failing : list res)              (* switch the failing-checker environment *)
-| HSession (ops : list sop).
-
-(* observable result of one session operation *)
-Inductive sres := RDone (o : option Z) | RAbort (k : akind) | RFuel.
-
-Section Run.
-Variable tb : table.
-Let Pt := denote_table tb.
-
-Definition run_sop (fuel : nat) (w : world) (o : sop) : sres * world :=
-  match o with
-  | SRequire t =>
-    match session_require RCtab OCtab Pt OC_ALWAYS fuel w t with
-    | Done x w' => (RDone (Some x), w') | Abort k w' => (RAbort k, w') | OutOfFuel => (RFuel, w)
-    end
-  | SBottomUp ch =>
-    match session_bottom_up RCtab OCtab Pt fuel w ch with
-    | Done _ w' => (RDone None, w') | Abort k w' => (RAbort k, w') | OutOfFuel => (RFuel, w)
-    end
-  end.
-
-(* a session stops at the first abort (the panic unwinds out of the session) *)
-Fixpoint run_session (fuel : nat) (w : world) (ops : list sop) : list sres * world :=
-  match ops with
-  | [] => ([], w)
-  | o :: tl =>
-    match run_sop fuel w o with
-    | (RDone x, w') => let '(rs, w'') := run_session fuel w' tl in (RDone x :: rs, w'')
-    | (r, w') => ([r], w')
-    end
-  end.
-
-Definition run_step (fuel : nat) (w : world) (s : step) : list sres * world :=
-  match s with
-  | HEdit r v => ([], set_content w r v)
-  | HEnv f => ([], set_env w f)
-  | HSession ops => run_session fuel (new_session w) ops
-  end.
-End Run.
+(* ---- histories of DSL programs: the generic runner of Build.v at the concrete checker tables ---- *)
+Definition dsl_run_step (tb : table) : nat -> world -> step -> list sres * world :=
+  Build.run_step RCtab OCtab (denote_table tb) OC_ALWAYS.
+Definition dsl_run_history (tb : table) : nat -> world -> list step -> list (list sres) * world :=
+  Build.run_history RCtab OCtab (denote_table tb) OC_ALWAYS.
